@@ -187,7 +187,7 @@ impl Property for C08 {
         // small-scope exhaustive histories over fragment inputs (well-formed pieces and the damaged ones)
         {
             let mut inputs = crate::bytesgen::fragment_inputs(9, 3);
-            for extra in [&b"</a>"[..], b"<a>", b"<b x='1' x='2'/>", b"<a><b></a>", b"<a", b"<\xff/>", b"<a>\xff</a>"] {
+            for extra in [&b"</a>"[..], b"<a>", b"<b x='1' x='2'/>", b"<a><b></a>", b"<a", b"<\xff/>", b"<a>\xff</a>", b"<a \xc2\xa0/>", b"<b\t\xc2\x85/>", b"<a \xe3\x80\x80></a>", b"<a k=\"1\"\xc2\xa0/>"] {
                 inputs.push(extra.to_vec());
                 let mut v = b"<a/>".to_vec();
                 v.extend_from_slice(extra);
